@@ -9,6 +9,7 @@ import sympy
 from wadler_lindig import pformat
 
 from mxlpy.meta.sympy_tools import fn_to_sympy, list_of_symbols
+from mxlpy.types import Derived
 
 if TYPE_CHECKING:
     from mxlpy.model import Model
@@ -39,6 +40,25 @@ class SymbolicModel:
         return sympy.Matrix(self.eqs).jacobian(
             sympy.Matrix(list(self.variables.values()))
         )
+
+
+def _stoichiometry_to_sympy(
+    origin: str,
+    factor: float | Derived,
+    symbols: dict[str, sympy.Symbol | sympy.Expr],
+) -> sympy.Expr:
+    if not isinstance(factor, Derived):
+        return sympy.Float(factor)
+    if (
+        expr := fn_to_sympy(
+            factor.fn,
+            origin=origin,
+            model_args=[symbols[i] for i in factor.args],
+        )
+    ) is None:
+        msg = f"Unable to parse stoichiometry '{origin}'"
+        raise ValueError(msg)
+    return expr
 
 
 def to_symbolic_model(model: Model) -> SymbolicModel:
@@ -104,18 +124,27 @@ def to_symbolic_model(model: Model) -> SymbolicModel:
         rxns[k] = expr
 
     # Go through stoichiometries & derived stoichiometries
+    # Computed coefficients are kept symbolic (the cache only knows their current
+    # value), such that the equations hold for every parameter setting
+    raw_reactions = model.get_raw_reactions()
     eqs: dict[str, sympy.Expr] = {}
     for cpd, stoich in cache.stoich_by_cpds.items():
         for rxn, stoich_value in stoich.items():
+            factor = (
+                raw_reactions[rxn].stoichiometry[cpd]
+                if rxn in raw_reactions
+                else stoich_value
+            )
             eqs[cpd] = (
-                eqs.get(cpd, sympy.Float(0.0)) + sympy.Float(stoich_value) * rxns[rxn]  # type: ignore
+                eqs.get(cpd, sympy.Float(0.0))
+                + _stoichiometry_to_sympy(f"{rxn}:{cpd}", factor, symbols) * rxns[rxn]  # type: ignore
             )
     for cpd, dstoich in cache.dyn_stoich_by_cpds.items():
         for rxn, der in dstoich.items():
-            eqs[cpd] = eqs.get(cpd, sympy.Float(0.0)) + fn_to_sympy(
-                der.fn,
-                [symbols[i] for i in der.args] * rxns[rxn],  # type: ignore
-            )  # type: ignore
+            eqs[cpd] = (
+                eqs.get(cpd, sympy.Float(0.0))
+                + _stoichiometry_to_sympy(f"{rxn}:{cpd}", der, symbols) * rxns[rxn]  # type: ignore
+            )
 
     return SymbolicModel(
         variables=variables,
